@@ -298,8 +298,8 @@ PROBES = {}
 
 SUBS = [
     Sub("cells", check, strategy=_strategy, quick=1500, thorough=40000, shards=16,
-        floors={"nt": 0.3, "groups>=2": 0.357, "single_member_cell": 0.2, "empty_cell": 0.099, "control": 0.15,
-                "sample_params": 0.222, "dict>=2": 0.144, "n1": 0.003}),
+        floors={"nt": 0.3, "groups>=2": 0.349, "single_member_cell": 0.2, "empty_cell": 0.099, "control": 0.15,
+                "sample_params": 0.214, "dict>=2": 0.12, "n1": 0.003}),
     Sub("cells_large", check_large, strategy=_large_strategy, quick=32, thorough=400, shards=16, shrink_quick=False,
         floors={"cells>=30": 0.25, "control": 0.12}),
 ]
